@@ -793,6 +793,88 @@ def wave9_rules(ctx):
     return obs
 
 
+def wave13_rules(ctx):
+    """(1) C06.paths/LitArr/positional - the update path of an array literal is `CombineArr(positional, after_spread)`: the first list is
+    indexed by element position at run time (`Z(Q.a([..]), i)`), so it may only receive the elements in front of the first spread; once a
+    spread has been seen every further element (and hole) belongs to the second list, whose entries are or-ed together."""
+    import guards
+    ob = ctx.ob
+    tc = ctx.tc
+    obs = []
+    found = False
+    for f in tc.fns:
+        if not f.body or "proc_gen" not in f.module:
+            continue
+        ctor = [n for n in sir.walk(f.body) if n.get("k") == "call" and (sir.call_path(n) or "").endswith("PathSlice::CombineArr") and len(n["args"]) == 2]
+        if not ctor:
+            continue
+        for c in ctor:
+            a, b = (sir.strip_ref(x) for x in c["args"])
+            if not (a.get("k") == "path" and b.get("k") == "path" and len(a["segs"]) == 1 and len(b["segs"]) == 1):
+                obs.append(ob("C06.paths/LitArr/positional", None, ctx.where(f), "the two lists of `CombineArr` are not plain locals: not decided"))
+                found = True
+                continue
+            A, B = a["segs"][0], b["segs"][0]
+            found = True
+            gs = guards.guards_of(f.body)
+            bad, good = [], 0
+            aliases = {}
+            # the lists live in the match arm (or block) that builds the slice: another arm may use the same names for other lists
+            pm = sir.parent_map(f.body)
+            scope = c
+            while id(scope) in pm:
+                scope = pm[id(scope)]
+                if scope.get("k") == "block" and any(st.get("k") == "local" and st["pat"].get("k") == "p_ident" and st["pat"].get("name") == A for st in scope["stmts"]):
+                    break
+            for n in sir.walk(scope):
+                if n.get("k") == "local" and n.get("init") is not None and n["pat"].get("k") == "p_ident" and n["init"].get("k") == "if" and n["init"].get("else") is not None:
+                    def tail(blk):
+                        e = blk
+                        while e.get("k") == "block" and e["stmts"]:
+                            last = e["stmts"][-1]
+                            e = last.get("e") if last.get("k") == "expr" else last
+                        return sir.expr_str(sir.strip_ref(e)) if isinstance(e, dict) else None
+                    t_, e_ = tail(n["init"]["then"]), tail(n["init"]["else"])
+                    if {t_, e_} == {A, B}:
+                        aliases[n["pat"]["name"]] = (n["init"]["cond"], t_, e_)
+            for n in sir.walk(scope):
+                if not (n.get("k") == "mcall" and n["m"] == "push"):
+                    continue
+                r = sir.expr_str(sir.strip_ref(n["recv"]))
+                if r == A:
+                    # a direct push into the positional list must be dominated by "no spread so far"
+                    okg = False
+                    for g in gs.get(id(n), []):
+                        if g[0] == "cond":
+                            et = sir.emptiness_test(g[1])
+                            if et and et[0] == B and (et[1] != g[2]):   # holds iff B is empty
+                                okg = True
+                    if okg:
+                        good += 1
+                    else:
+                        bad.append("`%s.push(..)` at expanded line %d is not under `%s` being empty" % (A, sir.line_of(n), B))
+                elif r in aliases:
+                    cond, t_, e_ = aliases[r]
+                    et = sir.emptiness_test(cond)
+                    if et is None or et[0] != B:
+                        bad.append("the list `%s` is chosen by `%s`, which is not a test of `%s`" % (r, sir.expr_str(cond)[:60], B))
+                    else:
+                        nonempty_branch = t_ if et[1] else e_
+                        if nonempty_branch == B:
+                            good += 1
+                        else:
+                            bad.append("`%s` is the positional list `%s` although `%s` is non-empty" % (r, A, B))
+            verdict = False if bad else (True if good >= 1 else None)
+            obs.append(ob("C06.paths/LitArr/positional", verdict, ctx.where(f),
+                          ("%d push(es) into the positional list `%s`, each only while the spread list `%s` is still empty" % (good, A, B)) if verdict else
+                          "; ".join(bad[:3]) if bad else "no push into `%s` found in a form this rule reads" % A,
+                          witness=None if verdict is not False else "`[...y, z][i]`: updating only `z` indexes a positional list that is shifted by the length of `y` - the node stays stale"))
+    if not found:
+        obs.append(ob("C06.paths/LitArr/positional", False, "proc_gen/expr.rs", "the path slice `CombineArr(positional, after_spread)` is not constructed anywhere in the generator"))
+    return obs
+
+
+
 def run(ctx):
     obs = runtime_rule(ctx)
     obs += guard_rule(ctx)
@@ -802,6 +884,7 @@ def run(ctx):
     obs += tuple_partner_rule(ctx)
     obs += wave8_rules(ctx)
     obs += wave9_rules(ctx)
+    obs += wave13_rules(ctx)
     # the update entry uses the binding map whenever a field is advertised: what disables a field is part of update soundness
     from rules.c07 import collector_rule
     for x in collector_rule(ctx):
